@@ -365,3 +365,76 @@ Proof.
     + destruct (s_b (ses st s)) as [c|] eqn:E; try congruence.
       destruct (iB2 _ H s false c E) as [Y _]. destruct (Hd c). congruence.
 Qed.
+
+(* ---------------------------------------------------------------- *)
+(* the finer request steps: SessReqBegin (unlocked part) / SessReqStore *)
+(* ---------------------------------------------------------------- *)
+Lemma set_spend_inv st v : Inv st -> Inv (set_spend st v).
+Proof. intros H. destruct H. constructor; cbn; assumption. Qed.
+
+Lemma sess_req_begin_inv c seq r st : Inv st -> Inv (sess_req_begin c seq r st).
+Proof.
+  intros H. unfold sess_req_begin.
+  destruct (alive (sc_st (scalls st c)) && negb (is_some (sc_perr (scalls st c))) && negb (is_some (spend st c))); auto.
+  destruct r; auto using PresS.fail_inv, set_spend_inv.
+  destruct (negb (m_ver m)); auto using PresS.fail_inv.
+  destruct (negb (m_from m =? sc_src (scalls st c))); auto using PresS.fail_inv, set_spend_inv.
+Qed.
+
+Lemma sess_req_store_inv c st : Inv st -> Inv (sess_req_store c st).
+Proof.
+  intros H. unfold sess_req_store. destruct (spend st c) as [[seq r]|]; auto.
+  apply PresS.sess_req_inv, set_spend_inv, H.
+Qed.
+
+(* the Store step of a pending SendMsg writes a mailbox only under the
+   conditions of send_routing evaluated in the state in which the STORE happens
+   (whatever happened since Begin): the session seqno the message was stamped
+   with is the relay epoch at that moment, and it is recorded with the message *)
+Lemma store_routing st c seq m d : Inv st -> alive (sc_st (scalls st c)) = true ->
+  spend st c = Some (seq, RSend m) ->
+  sbox (sess_req_store c st) d <> sbox st d ->
+  m_ver m = true /\ m_from m = sc_src (scalls st c) /\ seq = epoch_of st c /\
+  side (ses st (sc_s (scalls st c))) (negb (sc_isA (scalls st c))) = Some d /\
+  mb_recv (sbox (sess_req_store c st) d) = Some m /\
+  mb_gep (sbox (sess_req_store c st) d) = seq.
+Proof.
+  intros H Hal Ep. unfold sess_req_store. rewrite Ep.
+  set (st0 := set_spend st (upd (spend st) c None)).
+  assert (H0 : Inv st0) by (apply set_spend_inv, H).
+  intros Hd. change (sbox st d) with (sbox st0 d) in Hd.
+  destruct (send_routing st0 c seq m d H0 Hal Hd) as (A & B & C & _ & E & _ & _ & F & G).
+  repeat split; auto.
+Qed.
+
+(* a pending SendMsg whose stamp is older than the epoch at Store time is dropped without any effect on the relay *)
+Lemma store_stale_no_effect st c seq m :
+  spend st c = Some (seq, RSend m) -> m_ver m = true -> m_from m = sc_src (scalls st c) ->
+  seq < epoch_of st c ->
+  sess_req_store c st = set_spend st (upd (spend st) c None).
+Proof.
+  intros Ep Hv Hf Hs. unfold sess_req_store. rewrite Ep.
+  apply stale_no_effect; cbn; auto.
+Qed.
+
+(* the optional signature.pub_key attached to a message is carried as data only:
+   two messages that differ in nothing but m_pk are treated alike *)
+Definition with_pk (m : msg) (k : nat) : msg :=
+  {| m_seqno := m_seqno m; m_tag := m_tag m; m_ver := m_ver m; m_from := m_from m; m_pk := k |}.
+
+Lemma attached_key_ignored st c seq m k :
+  let s1 := sess_req c seq (RSend m) st in
+  let s2 := sess_req c seq (RSend (with_pk m k)) st in
+  scalls s1 = scalls s2 /\ swoken s1 = swoken s2 /\ ses s1 = ses s2 /\ sessions s1 = sessions s2 /\
+  peers s1 = peers s2 /\ trk s1 = trk s2 /\
+  forall d, option_map m_tag (mb_recv (sbox s1 d)) = option_map m_tag (mb_recv (sbox s2 d)) /\
+            mb_recvSent (sbox s1 d) = mb_recvSent (sbox s2 d) /\ mb_gep (sbox s1 d) = mb_gep (sbox s2 d).
+Proof.
+  cbn zeta. unfold sess_req.
+  destruct (alive (sc_st (scalls st c)) && negb (is_some (sc_perr (scalls st c)))); [|repeat split; auto].
+  unfold handle_send. cbn [m_ver m_from with_pk].
+  destruct (negb (m_ver m)); [repeat split; auto|].
+  destruct (negb (m_from m =? sc_src (scalls st c))); [repeat split; auto|].
+  destruct (req_gate c seq st) as [| |d']; [repeat split; auto|repeat split; auto|].
+  unfold wake_sess, put_box; cbn. repeat split; auto; unfold upd; destruct (d =? d'); reflexivity.
+Qed.
